@@ -180,7 +180,7 @@ pub fn c07() -> Check {
         "deterministic half: C01 histories in which up to three scan cursors are opened at generated points, advanced with generated programs, kept while writes, memtable rollovers and flushes, compactions, GCs and verifier unlinks go on, and finally walked to the end; every value a cursor returns must equal a reference cursor over the model snapshot taken when the scan was opened, no call may fail, and (skipfree allocation registry hook) no dereferenced skiplist node may have been freed. Generated configurations include sst cache sizes 0 and 8 KiB so retired files are not masked by cached descriptors. Non-trivial: a cursor was used after >= 1 flush or >= 1 compaction that happened since it was opened; distinct by structural hash.",
     )
     .assume("cursors are closed before a reopen (a cursor belongs to one open store)")
-    .assume("the threaded half (readers holding cursors while writer, flush and compaction threads run) is part of C06's engine")
+    .assume("threaded half (part threaded-held-cursors): client threads open a cursor, read a few entries, keep writing, and walk the cursor again at the end while a flush thread and compaction threads run; the second walk must extend the first, be ordered, and be a state the store could have had when the scan was opened (checked by the linearizability search as an atomic scan at open time); OS schedules are not owned")
     .pbt(StoreProp {
         name: "held-cursors",
         probes: Probes { cursors: true, ..Default::default() },
@@ -191,6 +191,7 @@ pub fn c07() -> Check {
         thorough: (2500, 300, 300),
         nontrivial: |s| s.cursor_held_across_flush + s.cursor_held_across_compaction >= 1,
     })
+    .pbt(crate::threads::Linearizability { name: "threaded-held-cursors" })
 }
 
 pub fn c20() -> Check {
@@ -205,7 +206,7 @@ pub fn c20() -> Check {
         "exploration",
         "safety form of the liveness property over generated states (deterministic half): configurations with small write-stall / mandatory-compaction thresholds (1..8 files, 4 KiB..64 MiB) and tight compaction limits (max files 2..64, max bytes 8 KiB..512 MiB); histories that flush/ingest often and compact rarely so level 0 reaches the stall threshold; whenever the store reports that ingest must stall, a bounded number of compaction steps (<= live files + 16) must lower level 0 below the threshold, and a compaction step that finds nothing to run while the stall holds and nothing is in progress is a violation. Non-trivial: level 0 reached the stall threshold at least once and was relieved; distinct by structural hash.",
     )
-    .assume("'eventually' is replaced by bounded-step relief under single-threaded step driving; thread-level wake-ups are covered by the threaded engine")
+    .assume("'eventually' is replaced by bounded-step relief under single-threaded step driving (part stall-relief) and by exact dead-lock detection under real threads (part threaded-stall: 1-4 threads ingesting ssts into an LsmTree with 1-3 compaction threads and stall thresholds of 1-7 files; a stall is declared only when every live store thread is parked on a condition variable and the progress / notify / ingested counters did not move for 500 ms; a 60 s watchdog only yields 'inconclusive')")
     .assume("known finding R-P: states in which all of level 0 plus the overlapping level-1 files already exceed max_compaction_files are excluded and counted")
     .pbt(StoreProp {
         name: "stall-relief",
@@ -217,6 +218,7 @@ pub fn c20() -> Check {
         thorough: (3000, 200, 400),
         nontrivial: |s| s.stalls_relieved >= 1,
     })
+    .pbt(crate::threads::ThreadedStall)
 }
 
 pub fn c02() -> Check {
@@ -230,4 +232,16 @@ pub fn c02() -> Check {
     .assume("recovered images that satisfy the R-D predicate (two live ssts overlapping in key range and timestamp range) are excluded and counted");
     c.watchdog_quick_s = 1500;
     c.part(crate::crash::CrashEnum { name: "crash-enumeration", focus: crate::crash::Focus::All, quick: 10, thorough: 150, quick_points: 40 })
+}
+
+pub fn c06() -> Check {
+    Check::new(
+        "C06",
+        "exploration",
+        "2-4 client threads run proptest-generated programs of 4-13 operations (put, delete, 2-6-key batch, get, range scan, held scan) over 2-8 shared keys against one KeyValueStore while a flush thread and 1-2 compaction threads run; memtable sizes 1 / 600 / 4096 bytes force rollovers and flushes mid-history; generated perturbation bytes drive yields and short sleeps at the store's guard-only yield points (after sequence assignment, after the log append, between the entries of a batch, after the memtable insert). Every operation is stamped with an invocation and a response number from one atomic counter; a Wing-Gong/Lowe search with memoisation looks for a total order that respects real time under a map model in which a batch is one atomic multi-key write and a scan one atomic range read. Non-trivial: two operations of different threads on one key overlap in time and a flush or compaction completed during the history; distinct by structural hash. Replays re-run a case 30 times.",
+    )
+    .assume("thread schedules belong to the OS (perturbed, not enumerated): a violation is exact, absence is weak evidence")
+    .assume("values are unique per write, so a read identifies the write it observed")
+    .assume("a search that exceeds its budget or a 60 s watchdog marks the case inconclusive, never a violation; a stall is only declared by the exact all-parked criterion")
+    .pbt(crate::threads::Linearizability { name: "linearizability" })
 }
